@@ -166,6 +166,32 @@ template<size_t N> static void array_test(Enumerator &E) {
 	});
 }
 
+// comparison for element types whose == is not bytewise (signed zeros, NaN, coarser keys): every pair of arrays of
+// length 1..3 over the value set, against std::array
+struct CoarseEl { int id; int tag; bool operator==(const CoarseEl &o) const { return id == o.id; } };
+template<class T, size_t N, class Mk> static void array_eq_pairs(const char *what, size_t nvals, Mk mk) {
+	size_t total = 1; for(size_t k = 0; k < N; k++) total *= nvals;
+	for(size_t x = 0; x < total; x++) for(size_t y = 0; y < total; y++) {
+		frg::array<T, N> fa, fb; std::array<T, N> sa, sb;
+		size_t xx = x, yy = y;
+		for(size_t k = 0; k < N; k++) { fa[k] = sa[k] = mk(xx % nvals, 0); fb[k] = sb[k] = mk(yy % nvals, 1); xx /= nvals; yy /= nvals; }
+		bool want = sa == sb;
+		EXPECT((fa == fb) == want && (fa != fb) == !want, "C18", std::string("array:==:") + what, std::string("array<") + what + "," + std::to_string(N) + "> comparison disagrees with std::array");
+	}
+}
+static void array_eq_test(Enumerator &E) {
+	E.eval("array comparison, non-bytewise element equality", "array", [&] {
+		const double dv[] = {0.0, -0.0, __builtin_nan(""), 1.5};
+		const float fv[] = {0.0f, -0.0f, __builtin_nanf(""), 2.5f};
+		array_eq_pairs<double, 1>("double", 4, [&](size_t i, int) { return dv[i]; });
+		array_eq_pairs<double, 2>("double", 4, [&](size_t i, int) { return dv[i]; });
+		array_eq_pairs<double, 3>("double", 4, [&](size_t i, int) { return dv[i]; });
+		array_eq_pairs<float, 2>("float", 4, [&](size_t i, int) { return fv[i]; });
+		array_eq_pairs<long double, 2>("long double", 3, [&](size_t i, int) { return (long double)dv[i]; });
+		array_eq_pairs<CoarseEl, 2>("key-with-coarser-equality", 3, [&](size_t i, int side) { return CoarseEl{(int)i, side * 5}; });
+	});
+}
+
 // ------------------------------------------------------------------------------------------ PRNGs
 struct pcg_ref { uint64_t state, inc; };
 static uint32_t pcg32_random_r(pcg_ref *rng) {
@@ -269,7 +295,7 @@ static std::vector<Instance> instances(const std::string &tier) {
 #endif
 #if ON(4)
 	if(th) { BS("bitset-11-12", 11, 12); BS("bitset-257-320", 257, 319, 320); }
-	add("array", [=](const std::vector<CrashInfo> &cr) { Enumerator E("array", "C18", cr); array_test<1>(E); array_test<2>(E); array_test<3>(E); array_test<4>(E); array_test<5>(E); array_test<17>(E); return E.finish(); });
+	add("array", [=](const std::vector<CrashInfo> &cr) { Enumerator E("array", "C18", cr); array_test<1>(E); array_test<2>(E); array_test<3>(E); array_test<4>(E); array_test<5>(E); array_test<17>(E); array_eq_test(E); return E.finish(); });
 	for(int s = 0; s < 4; s++) add("prng-" + std::to_string(s), [=](const std::vector<CrashInfo> &cr) { return run_prng(cr, th, s, 4); });
 	add("insertion_sort", [=](const std::vector<CrashInfo> &cr) { return run_sort(cr, th); });
 #endif
